@@ -86,6 +86,11 @@ def make_pairs(tier, rng):
         gn = IR.graph_node(inner, name="inner", inputs=["x"], outputs=outs)
         outer = IR.prog("top", [IR.func("P", ["u"], ["x"]), gn, IR.func("Q", [outs[-1]], ["q"])], max_iter=10)
         nested.append((gen.job(0, outer, [["u", "in.u"]], mode=j["mode"]), "nested/" + tag))
+        # ... and with the wrapper's outputs RENAMED: an output of a branch that was not taken is still absent
+        wout = [o + "_w" for o in outs]
+        gn = IR.graph_node(copy.deepcopy(inner), name="inner", inputs=["x"], outputs=wout, outmap=[[o, w] for o, w in zip(outs, wout)])
+        outer = IR.prog("top", [IR.func("P", ["u"], ["x"]), gn, IR.func("Q", [wout[-1]], ["q"])], max_iter=10)
+        nested.append((gen.job(0, outer, [["u", "in.u"]], mode=j["mode"]), "nested-renamed/" + tag))
     pairs += nested + declared
     n_rand = 4000 if thorough else 700
     tries = 0
